@@ -723,4 +723,6 @@ MANIFEST_ENTRY = {
 
 
 # thorough-tier floors: the quick-tier floors scaled by a conservative fraction of the size ratio of the two tiers
-MIN_COUNTERS["thorough"] = {k: int(v * 3) for k, v in MIN_COUNTERS["quick"].items()}
+# (counters of *distinct* things do not scale with the size and keep their quick-tier floor)
+_NONSCALING = ('distinct_orderings', 'checker.WeightedAcceptanceChecker', 'checker.BasicChecker', 'clock_scripted_scenarios', 'oracle_visibility_definite', 'candidates_with_optional_dropped', 'req_eval.VisibilityRequirement', 'oracle_soft_active')
+MIN_COUNTERS["thorough"] = {k: (v if k in _NONSCALING else int(v * 3)) for k, v in MIN_COUNTERS["quick"].items()}
